@@ -4,6 +4,7 @@ package tree
 
 import (
 	"sort"
+	"strings"
 
 	"vchk/testdata/c41/tree/serial"
 )
@@ -160,11 +161,13 @@ func (d DbSet) useTab(name string) TabSet {
 	return tb
 }
 
+// routine names are case-insensitive: entries live under the lower-cased name
 func (d DbSet) useProc(name string) ProcSet {
-	p, ok := d.procs[name]
+	key := strings.ToLower(name)
+	p, ok := d.procs[key]
 	if !ok {
 		p = ProcSet{name: name, privs: map[int]struct{}{}}
-		d.procs[name] = p
+		d.procs[key] = p
 	}
 	return p
 }
@@ -176,10 +179,14 @@ func (s Set) AddDb(db string, privs ...int) {
 	}
 }
 
+// BAD (P1c): drops the whole database entry, tables and routines included, once its own privileges are gone.
 func (s Set) RemoveDb(db string, privs ...int) {
 	d := s.useDb(db)
 	for _, p := range privs {
 		delete(d.privs, p)
+	}
+	if d.Count() == 0 {
+		delete(s.dbs, db)
 	}
 }
 
@@ -210,6 +217,7 @@ func (s Set) RemoveProc(db, proc string, privs ...int) {
 	for _, p := range privs {
 		delete(pr.privs, p)
 	}
+	// BAD (P4): the entry was stored under the lower-cased name. (P1c is satisfied: a ProcSet has one collection.)
 	if len(pr.privs) == 0 {
 		delete(s.useDb(db).procs, proc)
 	}
